@@ -83,7 +83,7 @@ pub fn op_table() -> Vec<(u8, usize)> {
         let arity = match op {
             0 | 79 | 81..=97 | 106 | 116 | 171 | 176 | 179..=185 => 0,
             108 => 0,
-            105 | 107 | 115 | 117 | 118 | 130 | 131 | 139 | 140 | 143..=146 | 129 | 166..=170 => 1,
+            105 | 107 | 115 | 117 | 118 | 130 | 131 | 139..=146 | 129 | 166..=170 => 1,
             121 | 122 => 3,
             119 | 120 | 124 | 125 | 109 | 110 | 126 | 127 | 128 | 132..=136 | 147..=164 => 2,
             123 | 111 | 165 => 3,
@@ -218,7 +218,7 @@ fn program_of(case: &Case) -> Vec<El> {
 
 /// opcodes that read their operands as numbers
 pub fn numeric_ops() -> Vec<(u8, usize)> {
-    op_table().into_iter().filter(|(o, _)| matches!(*o, 128 | 129 | 139..=140 | 143..=165)).collect()
+    op_table().into_iter().filter(|(o, _)| matches!(*o, 128 | 129 | 139..=165)).collect()
 }
 
 /// opcodes whose result depends on item lengths or stack depth
@@ -555,7 +555,7 @@ impl Property for C14 {
 
     fn assumptions() -> Vec<String> {
         vec![
-            "post-Genesis consensus semantics (no MINIMALDATA / MINIMALIF, unbounded script numbers); OP_2MUL/OP_2DIV, CLTV/CSV, reserved codes, VERIF/VERNOTIF, and the CHECKSIG family are not asserted: comparison stops at the first such element".into(),
+            "post-Genesis consensus semantics (no MINIMALDATA / MINIMALIF, unbounded script numbers); CLTV/CSV, reserved codes, VERIF/VERNOTIF, and the CHECKSIG family are not asserted: comparison stops at the first such element".into(),
             "comparison stops (without alarm) when an item exceeds 1 MiB".into(),
         ]
     }
